@@ -1,4 +1,5 @@
 import DryocVerif.Proofs.SecretBox
+import DryocVerif.Properties.C03
 /-
 C17 — a failed open releases nothing.
 
@@ -196,6 +197,19 @@ theorem objUnseal_ok_only_if_mac (P : Prims) (b : Box) (rpk rsk m : Bytes)
   · cases h
   · rename_i epk he
     exact ⟨epk, he, objBoxDecrypt_ok_only_if_mac P b _ epk rsk m h⟩
+
+/-! ### secretstream (re-exported from C03, statement written out) -/
+
+/-- a rejected stream `pull` releases nothing: the caller's message buffer and tag variable are exactly
+what they were (and the stream state too) — every instantiation of the primitives, every state, ALL
+inputs, no hypothesis -/
+theorem stream_failed_pull_no_release (P : Model.SecretStream.Prims) (s : Model.SecretStream.State)
+    (m : Bytes) (tagv : UInt8) (ct ad : Bytes)
+    (h : (Model.SecretStream.pull P s m tagv ct ad).res = .err) :
+    (Model.SecretStream.pull P s m tagv ct ad).st = s ∧
+    (Model.SecretStream.pull P s m tagv ct ad).buf = m ∧
+    (Model.SecretStream.pull P s m tagv ct ad).tag = tagv :=
+  C03.failed_pull_preserves P s m tagv ct ad h
 
 /-! ### non-vacuity: the `Err` premise is reachable (toy instance, forged tags) -/
 
